@@ -15,6 +15,7 @@ _real_scandir = os.scandir
 _state = {
     "root": None,  # absolute scratch root of the current run (str) or None
     "order": None,  # {absolute dir: [names]} for the active scan or None
+    "explicit": False,  # the plan prescribes an order for every directory of this scan
     "served": [],  # [(reldir, [names served])] for the active scan
     "unplanned": 0,
     "unsorted": 0,
@@ -41,7 +42,8 @@ def _plan_order(path, names):
     want = order.get(key)
     present = sorted(names)
     if want is None:
-        _state["unplanned"] += 1
+        if _state["explicit"]:
+            _state["unplanned"] += 1
         out = present
     else:
         have = set(present)
@@ -103,8 +105,9 @@ def set_root(root):
     _state["root"] = os.path.abspath(root) if root else None
 
 
-def begin_scan(order_by_absdir):
+def begin_scan(order_by_absdir, explicit=True):
     _state["order"] = order_by_absdir
+    _state["explicit"] = explicit
     _state["served"] = []
 
 
